@@ -23,6 +23,7 @@ CONSTANTS Tier          \* "quick" | "thorough" : size of the enumerated catalog
 F0     == Fn("f", "f", "a.c", 1)
 FName  == Fn("g", "f", "a.c", 1)
 FSys   == Fn("f", "f_", "a.c", 1)
+FNoSys == Fn("f", "", "a.c", 1)          \* no system name at all (F0 has one equal to its name)
 FFile  == Fn("f", "f", "b.c", 1)
 FStart == Fn("f", "f", "a.c", 2)
 G      == Fn("h", "h", "a.c", 5)
@@ -47,6 +48,7 @@ VariantLocs ==
   << L0,
      Loc(M0, 3, <<Ln(FName, 10, 1)>>, FALSE),
      Loc(M0, 3, <<Ln(FSys, 10, 1)>>, FALSE),
+     Loc(M0, 3, <<Ln(FNoSys, 10, 1)>>, FALSE),
      Loc(M0, 3, <<Ln(FFile, 10, 1)>>, FALSE),
      Loc(M0, 3, <<Ln(FStart, 10, 1)>>, FALSE),
      Loc(M0, 3, <<Ln(F0, 11, 1)>>, FALSE),
